@@ -1522,10 +1522,12 @@ func (r *zzC07Run) do(st zzC07Step) (status string, got zzC07State) {
 		return "discard", got
 	}
 
-	if st.Act == "rec" && len(st.Dsts) == 1 && h.in.states[st.Dsts[0]].St.Fp && !r.x.held {
-		// The automatic flush runs in its own goroutine: the state between
-		// Add and its completion cannot be sampled.  The autoflush step that
-		// must follow waits for it and compares.
+	if len(st.Dsts) == 1 && h.in.states[st.Dsts[0]].St.Fp && !r.x.held {
+		// An automatic flush has been requested and nothing holds it back (the
+		// harness holds fileFlushLock only between enc and app): it runs in
+		// its own goroutine, so the state between the request and its
+		// completion cannot be sampled.  The autoflush step that must follow
+		// (nothing else is enabled) waits for it and compares.
 		r.cur = st.Dsts[0]
 		r.steps = append(r.steps, zzC07Step{Act: st.Act, Args: st.Args, Dsts: []int{r.cur}})
 
